@@ -14,5 +14,13 @@ for f in fns:
 p = os.path.join(V, 'gvc', 'baseline.json')
 b = json.load(open(p))
 b['assumed_lexers'] = {n: sorted(A.lexer_fingerprint(f) for f in by[n]) for n in sorted(names) if n in by}
+import hashlib
+h = hashlib.sha1()
+for n in sorted(by):
+    for f in sorted(by[n], key=lambda f_: (f_.file, f_.line)):
+        if getattr(f, 'is_parser', False) or getattr(f, 'is_combinator', False):
+            h.update(n.encode())
+            h.update(A.lexer_fingerprint(f).encode())
+b['assumed_lexers']['__all_productions__'] = [h.hexdigest()[:16]]
 json.dump(b, open(p, 'w'), indent=1)
 print(len(b['assumed_lexers']), 'fingerprints; not found:', sorted(n for n in names if n not in by))
